@@ -272,6 +272,9 @@ def run(model, tier="quick"):
     res.floor("obligations", len(res.obligations), 17)
     from .C02 import binning_rule
     res.units["resampling_sites"] = binning_rule(model, res)     # wallet prices and position rows of a bar come from the same minute
+    # constructors establish the relations between fields that the references above take for granted
+    from .ctor_refs import constructors
+    res.units["constructor_references"] = constructors(res, model, ('market', 'broker', 'pool', 'squeeth', 'deribit', 'gmx2', 'aave'))
     from ..rules.fresh import fresh_rule
     if "R-FRESH" not in res.rules:
         res.rules.append("R-FRESH")
